@@ -498,6 +498,12 @@ static void vs_schedule(void) {
                 if (i != c && (vs_enabled(&vs_T[i]) || (vs_T[i].state == VST_BLOCKED && vs_T[i].timed))) {
                     others = true;
                 }
+                /* a thread waiting for a mutex that the spinning thread happens to hold at this very step is not
+                 * stuck: it was merely never chosen (unfair schedule), the spinner releases the mutex in every round */
+                if (i != c && vs_T[i].state == VST_READY && (vs_T[i].op == VOP_LOCK || vs_T[i].op == VOP_REACQ) && vs_T[i].m &&
+                    vs_T[i].m->owner == c) {
+                    others = true;
+                }
             }
             vs_fatal_event(others ? "StepCap" : "Deadlock");
         }
